@@ -24,8 +24,43 @@ pub fn build(t: &Value) -> BoxSource {
     }
     "concat_add" => {
       let mut c = ConcatSource::default();
-      for ch in t["children"].as_array().unwrap() {
-        c.add(build(ch));
+      for (i, ch) in t["children"].as_array().unwrap().iter().enumerate() {
+        // a typed (unboxed) ConcatSource child is flattened by add; everything else is added as built
+        if ch["kind"].as_str() == Some("concat") || ch["kind"].as_str() == Some("concat_add") {
+          let mut inner = ConcatSource::default();
+          for g in ch["children"].as_array().unwrap() {
+            inner.add(build(g));
+          }
+          c.add(inner);
+        } else {
+          c.add(build(ch));
+        }
+        // observers called right after this add (mutation after observation)
+        if let Some(th) = t["then"][i.to_string().as_str()].as_array() {
+          for h in th {
+            match h.as_str().unwrap_or("") {
+              "source" => {
+                let _ = c.source();
+              }
+              "size" => {
+                let _ = c.size();
+              }
+              "buffer" => {
+                let _ = c.buffer();
+              }
+              "map" => {
+                let _ = c.map(&MapOptions::default());
+              }
+              "hash" => {
+                use std::hash::{Hash, Hasher};
+                let mut hs = std::collections::hash_map::DefaultHasher::new();
+                c.hash(&mut hs);
+                let _ = hs.finish();
+              }
+              _ => {}
+            }
+          }
+        }
       }
       c.boxed()
     }
